@@ -315,9 +315,24 @@ def step(ms, op):
         return ns, ex
     if k in ("cleanup", "verify"):
         return ns, ex
+    if k == "load":
+        for path, term in op[1]:
+            tid = ("E", path)
+            if tid in ns.tasks:
+                if not op[2]:
+                    continue
+                if ns.frozen:
+                    ex.raises = "ValueError"
+                    return ms, ex
+                del ns.tasks[tid]
+            if ns.frozen:
+                ex.raises = "ValueError"
+                return ms, ex
+            ns.tasks[tid] = expr_task(path, term)
+        return ns, ex
     if k == "refresh":
-        if ns.frozen and ns.tasks:
-            ex.raises = "ValueError"
+        if ns.frozen:
+            ex.raises = "ValueError?"   # may raise ValueError or be a no-op; never changes anything
             return ms, ex
         return ns, ex
     raise ValueError(f"model: unknown op {op!r}")
